@@ -32,6 +32,9 @@ type rSess struct {
 	FARs   []sFAR
 	QERs   []sQER
 	Dead   bool
+	// GivenUE: the UP allocated a UE address for this session at some point of its life (an Update PDR that repeats the
+	// address explicitly does not take it away)
+	GivenUE bool
 }
 
 func (s *rSess) far(id uint32) *sFAR {
